@@ -1085,8 +1085,8 @@ def r23(ctx):
 
 def r24(ctx):
     ctx.rule('C14.R24', 'an arbitration that is over is over in both members: in the device classes every store that withdraws the '
-             'arbitration address (m_arbitrationMaster = SYN) is followed on every path to the end of its function by the '
-             'reset of the check counter (m_arbitrationCheck = 0), or is reached only with the counter being 0 - a counter '
+             'arbitration address (m_arbitrationMaster = SYN) is accompanied on every path through its function by the '
+             'reset of the check counter (m_arbitrationCheck = 0, behind it or in front of it), or is reached only with the counter being 0 - a counter '
              'left non-zero after the protocol layer withdrew an arbitration (startArbitration(SYN), no state pointer) makes '
              'the next arbitration start answer "arbitration running" and write nothing', minimum=5)
     fb = ctx.fb
@@ -1106,9 +1106,13 @@ def r24(ctx):
             after = fn.exit is not None and not fn.reaches_point(b, (fn.exit, 0), resets, start_idx=i + 1)
             zero = fn.needs_one_of(nid, [('this.m_arbitrationCheck', False), ('(this.m_arbitrationCheck == #0)', True),
                                          ('(this.m_arbitrationCheck <= #0)', True), ('(this.m_arbitrationCheck < #1)', True)])
-            ok = after or zero
+            sets = set(n2 for n2, d2, r2, o2, l2 in asg if l2 is not None and fn.key(l2) == 'this.m_arbitrationCheck' and n2 not in resets)
+            # in front of it: every path from the entry passes a reset, and no other store to the counter lies between
+            before = bool(resets) and not fn.reaches_point(fn.entry, (b, i), resets) and \
+                not any(fn.reaches_point(fn.pos(s_)[0], (b, i), resets, start_idx=fn.pos(s_)[1] + 1) for s_ in sets)
+            ok = after or zero or before
             ctx.ob('C14.R24', fn, nid, ok, 'arbitration withdrawn in %s' % fn.name.split('::', 1)[-1],
-                   'check counter reset on every path behind it: %s; reached only with the counter 0: %s' % (after, zero))
+                   'check counter reset on every path behind it: %s; or in front of it: %s; reached only with the counter 0: %s' % (after, before, zero))
     if n < 5:
         raise AnalysisBroken('C14.R24: only %d stores m_arbitrationMaster = SYN found' % n)
 
